@@ -1,5 +1,6 @@
 import RlibModel.Model.RandRng
 import RlibModel.Model.RandFloat
+import RlibModel.Model.RandMulti
 /-! Line-protocol driver for engine `rand` (property C14).
 
 Case lines (see `harness/e_rand/src/main.rs` for the generator):
@@ -13,8 +14,14 @@ draws:<ty> <form> <a> <b> <seed> <n>         n calls of next(range) from Rng::fr
 period:<ty> <m> <seed> <n> <p>               n calls of next(0..m): the sequence does not have period p (tested claim)
 shuffle <seed> <n>                           shuffle of [0..n) with Rng::from_seed(seed), then one next_raw
 permstat <n> <nseeds> <seed0>                permutation frequencies of shuffle over consecutive seeds (tested claim)
+permstat:<elt>[-d|-w] <n> <nseeds> <seed0>   the same on slices of another element type / through another receiver (suffix ignored here)
 shufall <n> <mult>                           all draw vectors d_i ∈ 0..=i (+ mult·(i+1)): every permutation exactly once
 shufraw <n> ; raw ; raw …                    the trait's `shuffle` driven by a replayed raw stream
+multi <A> <C> <seed> … ; op ; op …           several live generators `LinearCongruentialGenerator64<A, C>` (`- -` = `Rng`), used interleaved:
+    raw i | nx:<recv>:<ty> form a b i | nf:<recv> <start hex> <end hex> i | sh:<recv>:<elt> n i      draws from generator i
+    cp:<kind> i | as:<kind> i j | all:<kind> | fork i | new seed                                  copies / assignments / re-seeding
+  (slot numbers modulo the number of live generators; <recv>, <elt>, <kind> select HOW the harness calls the crate
+   and mean nothing to the model: every copy copies the state, every receiver reaches the same function)
 ```
 `form` ∈ range | incl | to | toincl | full (unused bounds are written as 0).
 -/
@@ -177,6 +184,102 @@ def permStat (n nseeds seed0 : Nat) : String × Bool :=
 def drawVectors (n : Nat) : List (List Nat) :=
   (List.range (n - 1)).foldl (fun acc k => acc.flatMap (fun d => (List.range (k + 2)).map (fun x => d ++ [x]))) [[]]
 
+/-! ### `multi`: several live generators, copies by every entry point -/
+
+/-- const parameters the harness instantiates `LinearCongruentialGenerator64<A, C>` at, besides `Rng` -/
+def lcgVariants : List (Nat × Nat) :=
+  [(6364136223846793005, 1442695040888963407), (1, 1), (5, 3), (2862933555777941757, 3037000493),
+   (18446744073709551615, 18446744073709551615), (0, 0), (4294967297, 9223372036854775808)]
+
+/-- how the words an operation consumed are turned into what the harness observes -/
+inductive MObs where
+  | nothing
+  | word
+  | nx (t : IntTy) (f : Form)
+  | nf (s e : Float)
+  | sh (n : Nat) (visible : Bool)
+
+def slotTok? (s : String) : Option Nat := do
+  let i ← parseNat? s
+  if i < 2 ^ 32 then some i else none
+
+def parseMultiOp (op : String) : Option (Multi.Op × MObs) :=
+  match tokens op with
+  | [] => none
+  | hd :: rest =>
+    match hd.splitOn ":", rest with
+    | ["raw"], [i] => do let i ← slotTok? i; return (.use i 1, .word)
+    | ["fork"], [i] => do let i ← slotTok? i; return (.fork i, .word)
+    | ["new"], [seed] => do
+      let seed ← parseNat? seed
+      if seed ≥ 2 ^ 64 then none else return (.new seed, .nothing)
+    | ["cp", _kind], [i] => do let i ← slotTok? i; return (.dup i, .nothing)
+    | ["as", _kind], [i, j] => do let i ← slotTok? i; let j ← slotTok? j; return (.assign i j, .nothing)
+    | ["all", _kind], [] => some (.dupAll, .nothing)
+    | ["nx", _recv, ty], [form, a, b, i] => do
+      let t ← IntTy.parse? ty
+      let a ← parseInt? a
+      let b ← parseInt? b
+      let f ← parseForm? form a b
+      let i ← slotTok? i
+      return (.use i 1, .nx t f)
+    | ["nf", _recv], [sh, eh, i] => do
+      let sb ← parseHex? sh
+      let eb ← parseHex? eh
+      if sb ≥ 2 ^ 64 ∨ eb ≥ 2 ^ 64 then none else
+      let i ← slotTok? i
+      return (.use i 1, .nf (Float.ofBits sb.toUInt64) (Float.ofBits eb.toUInt64))
+    | ["sh", _recv, elt], [n, i] => do
+      let n ← parseNat? n
+      let i ← slotTok? i
+      if n > 4096 ∨ (elt = "u8" ∧ n > 256) then none else
+      return (.use i (n - 1), .sh n (elt ≠ "zst"))
+    | _, _ => none
+
+/-- (observation, class, expected class; `any` = outside the property's domain) -/
+def renderObs (o : MObs) (ws : List Nat) : String × String × String :=
+  match o, ws with
+  | .nothing, _ => ("-", "ok", "ok")
+  | .word, [w] => (toString w, "ok", "ok")
+  | .nx t f, [w] => (showExcept toString (gen t f w), classInt t f (gen t f w), specInt t f)
+  | .nf s e, [w] =>
+    let r := genF floatOps Params.floatShift Params.floatBits s e w
+    (showExcept hex16 r, classF s e r, if s < e then "in" else "panic:assert")
+  | .sh n visible, ws =>
+    let arr := ws.toArray
+    match shuffle (fun k => arr.getD k 0) (List.range n) with
+    | .error p => (p.toString, p.toString, "perm")
+    | .ok v => (if visible then showNats v else s!"zst{n}", if isPermOfRange n v then "perm" else "notperm", "perm")
+  | _, _ => ("?", "no-generator", "ok")
+
+def handleMulti (hdr : List String) (ops : List String) : Option String := do
+  match hdr with
+  | a :: c :: seedToks =>
+    let g? : Option Gen := (if a = "-" ∧ c = "-" then some theGen else do
+      let a ← parseNat? a
+      let c ← parseNat? c
+      if lcgVariants.contains (a, c) then some { theGen with A := a, C := c } else none)
+    let some g := g? | return invalid
+    let seeds ← seedToks.mapM parseNat?
+    if seeds.isEmpty ∨ seeds.length > 8 ∨ seeds.any (· ≥ 2 ^ 64) ∨ ops.length > 64 then return invalid
+    let parsed ← ops.mapM parseMultiOp
+    let mops := parsed.map (·.1)
+    let obs := parsed.map (·.2)
+    let model := (Multi.run g seeds mops).1
+    let spec := (Multi.specRun g (Multi.fresh seeds) mops).1
+    let rm := (obs.zip model).map (fun (o, ws) => renderObs o ws)
+    -- an observation is a function of the words the operation returned: equal words, equal observations
+    let rs := if model = spec then rm else (obs.zip spec).map (fun (o, ws) => renderObs o ws)
+    let domain := if rm.any (fun r => r.2.2 = "any") then "any" else "ok"
+    let bad := (rm.zipIdx.filter (fun (r, _) => r.2.1 ≠ r.2.2)).head?
+    -- V: the model's observations seen through the property: every draw in its range / a permutation, and equal to
+    -- what the LINEAGE of the generator prescribes (`multi_run_eq_spec`: always)
+    let view := match bad with
+      | some (r, k) => s!"op{k}:{r.2.1}"
+      | none => if rm.map (·.1) = rs.map (·.1) then "ok" else "nondet"
+    return answer3 ("/".intercalate (rm.map (·.1))) view domain
+  | _ => none
+
 def handle (line : String) : String :=
   match splitOps line with
   | [] => badLine line
@@ -258,6 +361,7 @@ def handle (line : String) : String :=
       -- S: shuffle_onto + counting (n! draw vectors, n! permutations)
       answer3 s!"reached={reached} max={maxc} bad={bad}" (if ok then "all-once" else "not-bijective") "all-once"
     | _, _ => badLine line
+  | ("multi", none), rest => (handleMulti rest ops).getD (badLine line)
   | ("shufraw", none), [n] =>
     match parseNat? n, ops.mapM parseNat? with
     | some n, some raws =>
